@@ -186,6 +186,20 @@ func isEscPrefix(s string) bool {
 
 // ---------------------------------------------------------------- encoder
 
+// hexEsc spells ch as `U+hex` with 1..8 hex digits (the manual's range): the natural width, or
+// zero-padded to any width up to the limit of eight.
+func hexEsc(r *rand.Rand, ch rune) string {
+	nat := len(fmt.Sprintf("%X", ch))
+	w := nat
+	switch r.Intn(4) {
+	case 0:
+		w = nat + r.Intn(8-nat+1)
+	case 1:
+		w = 8
+	}
+	return fmt.Sprintf("`U+%0*X`", w, ch)
+}
+
 func encodeLiteral(r *rand.Rand, text []rune, fam quoteFamily) string {
 	var sb strings.Builder
 	sb.WriteRune(fam.open)
@@ -222,7 +236,7 @@ func encodeLiteral(r *rand.Rand, text []rune, fam quoteFamily) string {
 			}
 		case ch == '`':
 			if r.Intn(4) == 0 {
-				sb.WriteString("`U+60`")
+				sb.WriteString(hexEsc(r, '`'))
 			} else {
 				sb.WriteString("`BK`")
 			}
@@ -238,9 +252,9 @@ func encodeLiteral(r *rand.Rand, text []rune, fam quoteFamily) string {
 		case ch == ' ' && r.Intn(4) == 0:
 			sb.WriteString("`SP`")
 		case ch == 0:
-			sb.WriteString("`U+0`")
+			sb.WriteString(hexEsc(r, 0))
 		case r.Intn(12) == 0:
-			sb.WriteString(fmt.Sprintf("`U+%X`", ch))
+			sb.WriteString(hexEsc(r, ch))
 		default:
 			sb.WriteRune(ch)
 		}
@@ -389,7 +403,7 @@ func checkC13(c *Ctx) {
 		}
 		// bias: plant well-formed escapes
 		if rng.Intn(3) == 0 {
-			esc := []string{"`CR`", "`LF`", "`CRLF`", "`TAB`", "`SP`", "`BK`", "`U+4E`", "`U+0`", "`U+FFFFFFFF`", "`”`", "`“`", "`》`", "`CRL`", "`U+`", "`U+4e`", "`BKK`"}[rng.Intn(16)]
+			esc := []string{"`CR`", "`LF`", "`CRLF`", "`TAB`", "`SP`", "`BK`", "`U+4E`", "`U+0`", "`U+FFFFFFFF`", "`”`", "`“`", "`》`", "`CRL`", "`U+`", "`U+4e`", "`BKK`", "`U+00000041`", "`U+000000041`", "`U+0010FFFF`", "`U+00110000`"}[rng.Intn(20)]
 			p := rng.Intn(len(content) + 1)
 			content = append(append(append([]rune{}, content[:p]...), []rune(esc)...), content[p:]...)
 		}
